@@ -3,7 +3,7 @@
 cd "$(dirname "$0")/.."
 for item in $1; do
   sid=${item%%:*}; checks=${item#*:}; P=${sid%%-*}; k=${sid##*-m}
-  d=/tmp/seed/$P/out/m$k
+  d=${SEED_SRC:-/tmp/seed}/$P/out/m$k
   [ -f $d/patch.diff ] || { echo "$sid: no patch"; continue; }
   notests=""; [ -f ${SEED_DEST:-.}/seeded/$sid/meta.json ] && grep -q '"tests_pass": true' ${SEED_DEST:-.}/seeded/$sid/meta.json && notests="--no-tests"
   python3 tools/seed_eval.py $d $sid ${checks//,/ } $notests > scratch/seedlogs/$sid.log 2>&1
